@@ -911,3 +911,86 @@ func SignMultiTx(chainID string, msg sdk.ProtoMsg, fee sdk.Coins, memo string, e
 	}
 	return bz
 }
+
+// ---------------------------------------------------------------------------------------------
+// export / import support
+
+// Logger is handed to the application (default: discard). The C43 import subprocess sets a real one so that the
+// reason of an os.Exit inside a genesis check is visible.
+var Logger log.Logger = log.NewNopLogger()
+
+// NewNodeFromGenesis builds a fresh node (fresh databases) whose InitChain is fed the given application genesis
+// state instead of one rendered from spec; no warm-up or setup blocks are run. spec supplies only the feature
+// configuration and chain id. Import checks inside the modules may os.Exit: call this from a subprocess.
+func NewNodeFromGenesis(spec *Spec, gs app.GenesisState) *Node {
+	ResetGlobals(spec)
+	app.GenState = gs
+	n := &Node{Spec: spec, DB: dbm.NewMemDB(), BlockDB: dbm.NewMemDB(), TxDB: dbm.NewMemDB(), sets: map[int64][]valInfo{}, Current: map[string]int64{}}
+	n.App = app.NewPocketCoreApp(gs, keys.NewInMemory(), stubClient{}, &pocketTypes.HostedBlockchains{M: map[string]pocketTypes.HostedBlockchain{}},
+		Logger, n.DB, spec.Cache, 5000000, bam.SetPruning(store.PruneNothing))
+	n.BlockStore = tmStore.NewBlockStore(n.BlockDB)
+	n.Indexer = sdk.NewTransactionIndexer(n.TxDB)
+	n.App.SetBlockstore(n.BlockStore)
+	n.App.SetTxIndexer(n.Indexer)
+	n.Time = spec.GenesisTime
+	n.LastInit = n.App.InitChain(abci.RequestInitChain{ChainId: spec.ChainID, Time: spec.GenesisTime,
+		ConsensusParams: &abci.ConsensusParams{Block: &abci.BlockParams{MaxBytes: 4000000, MaxGas: -1},
+			Evidence:  &abci.EvidenceParams{MaxAge: 1000000},
+			Validator: &abci.ValidatorParams{PubKeyTypes: []string{"ed25519"}}}})
+	n.applyUpdates(n.LastInit.Validators)
+	n.sets[1] = n.snapshotSet()
+	n.sets[2] = n.snapshotSet()
+	return n
+}
+
+// StateView is a normalised, JSON-serialisable view of the application state (what an exported genesis is meant to
+// reproduce): category -> item -> canonical JSON/string.
+func (n *Node) StateView() map[string]map[string]string {
+	ctx := n.Ctx()
+	cdc := app.Codec()
+	js := func(v interface{}) string {
+		b, err := cdc.MarshalJSON(v)
+		if err != nil {
+			return "ERR:" + err.Error()
+		}
+		return string(sdk.MustSortJSON(b))
+	}
+	v := map[string]map[string]string{"accounts": {}, "supply": {}, "nodes": {}, "apps": {}, "params": {}, "claims": {}}
+	for a, c := range n.Accounts() {
+		if !c.IsZero() {
+			v["accounts"][a] = c.String()
+		}
+	}
+	v["supply"]["total"] = n.Supply().String()
+	for _, val := range n.App.VerifNodesKeeper().GetAllValidators(ctx) {
+		v["nodes"][val.Address.String()] = js(val)
+	}
+	for _, a := range n.App.VerifAppsKeeper().GetAllApplications(ctx) {
+		v["apps"][a.Address.String()] = js(a)
+	}
+	v["params"]["pos"] = js(n.App.VerifNodesKeeper().GetParams(ctx))
+	v["params"]["application"] = js(n.App.VerifAppsKeeper().GetParams(ctx))
+	v["params"]["pocketcore"] = js(n.App.VerifPocketKeeper().GetParams(ctx))
+	v["params"]["auth"] = js(n.App.VerifAccountKeeper().GetParams(ctx))
+	gp := n.App.VerifGovKeeper().GetParams(ctx)
+	v["params"]["gov/acl"] = js(gp.ACL)
+	v["params"]["gov/daoOwner"] = gp.DAOOwner.String()
+	v["params"]["gov/upgrade"] = js(gp.Upgrade)
+	for i, cl := range n.App.VerifPocketKeeper().GetAllClaims(ctx) {
+		v["claims"][fmt.Sprintf("%d", i)] = js(cl)
+	}
+	return v
+}
+
+// SetFeatures replaces the named-feature schedule of the spec consistently (process globals AND the upgrade
+// parameter carried by the gov genesis).
+func (s *Spec) SetFeatures(f map[string]int64) {
+	s.Features = map[string]int64{}
+	var list []string
+	for k, v := range f {
+		s.Features[k] = v
+		list = append(list, fmt.Sprintf("%s:%d", k, v))
+	}
+	sort.Strings(list)
+	s.GovUpgrade.Features = list
+}
